@@ -2,6 +2,7 @@
 from __future__ import annotations
 
 import ast
+import re
 
 from ..loader import AnalysisError, dotted, norm, walk_no_defs
 from ..regexlang import Unsupported as RxUnsupported
@@ -143,14 +144,37 @@ def r1_parseinfo(a, tier):
             rep.fail(mp.qualname, f'parseinfo-not-fresh:{norm(v)[:30]}', f'make_parseinfo returns `{norm(v)}`, which is not the ParseInfo constructed in this call: '
                      f'the end offset and end line it carries belong to an earlier exit', f'{mp.module.relpath}:{r.lineno}')
 
-    def res(fn, e):
-        """text of E with single-assignment locals of FN looked through (endpos -> self.pos, cur -> self.cursor)"""
+    # read-only properties of the engine that only hand out an attribute chain (cursor -> self.state.cursor, state -> self.states.state,
+    # pos -> self.states.state.cursor.pos): `self.cursor.lineat(p)` and `cur = self.state.cursor; cur.lineat(p)` are the same read
+    props: dict[str, str] = {}
+    for q_ in a.ct.mro(ENGINE):
+        ci_ = a.p.classes.get(q_)
+        for nm_, m_ in (ci_.methods.items() if ci_ else ()):
+            body_ = [x for x in m_.node.body if not (isinstance(x, ast.Expr) and isinstance(x.value, ast.Constant))]
+            if nm_ not in props and any(d.split('.')[-1] in ('property', 'cached_property') for d in m_.decorators) and len(body_) == 1 \
+                    and isinstance(body_[0], ast.Return) and body_[0].value is not None and re.fullmatch(r'self(\.\w+)+', norm(body_[0].value)):
+                props[nm_] = norm(body_[0].value)
+
+    def canon_text(t: str) -> str:
+        for _ in range(8):
+            t2 = re.sub(r'\bself\.(\w+)\b(?!\()', lambda m: props.get(m.group(1), m.group(0)) if m.group(1) in props else m.group(0), t)
+            if t2 == t:
+                break
+            t = t2
+        return t
+
+    def _res(fn, e):
         e = through_locals(fn, e)
         if isinstance(e, ast.Call):
-            return f'{res(fn, e.func)}({", ".join(res(fn, x) for x in e.args)})'
+            return f'{_res(fn, e.func)}({", ".join(_res(fn, x) for x in e.args)})'
         if isinstance(e, ast.Attribute):
-            return f'{res(fn, e.value)}.{e.attr}'
+            return f'{_res(fn, e.value)}.{e.attr}'
         return norm(e)
+
+    def res(fn, e):
+        """text of E with single-assignment locals of FN looked through (endpos -> self.pos, cur -> self.cursor) and the engine's
+        attribute-chain properties expanded"""
+        return canon_text(_res(fn, e))
 
     engine_fns = [f for f in a.p.functions.values() if f.qualname.startswith('tatsu.contexts.')]
 
@@ -188,7 +212,8 @@ def r1_parseinfo(a, tier):
 
     kwn = {k.arg: k.value for k in ctor[0].keywords}
     kw = {k: res(mp, v) for k, v in kwn.items()}
-    POS = ('self.pos', 'self.cursor.pos', 'self.state.cursor.pos')
+    POS = tuple(dict.fromkeys(canon_text(x) for x in ('self.pos', 'self.cursor.pos', 'self.state.cursor.pos')))
+    LINEAT = canon_text('self.cursor.lineat')
     # rule <- the name of the INVOKED rule (a RuleInfo parameter of the function that starts the flow), never the call stack
     rule_or = origins(mp, kwn['rule']) if 'rule' in kwn else set()
     ok = bool(rule_or) and all(ann.endswith('RuleInfo') and text.endswith('.name') and text.count('.') == 1 for _f, ann, text in rule_or)
@@ -206,18 +231,18 @@ def r1_parseinfo(a, tier):
     line_arg = None
     if 'line' in kwn and isinstance(through_locals(mp, kwn['line']), ast.Call):
         lc = through_locals(mp, kwn['line'])
-        if res(mp, lc.func) == 'self.cursor.lineat' and len(lc.args) == 1:
+        if res(mp, lc.func) == LINEAT and len(lc.args) == 1:
             line_arg = lc.args[0]
     ok = line_arg is not None and origins(mp, line_arg) == pos_or
     rep.add({'ParseInfo_field': 'line', 'from': kw.get('line'), 'ok': ok})
     if not ok:
         rep.fail(mp.qualname, 'field:line', f'ParseInfo.line is built from `{kw.get("line")}`, required cursor.lineat() of the start offset', mp.loc)
-    for fld, ws in {'endline': tuple(f'self.cursor.lineat({x})' for x in POS), 'endpos': POS}.items():
+    for fld, ws in {'endline': tuple(f'{LINEAT}({x})' for x in POS), 'endpos': POS}.items():
         ok = kw.get(fld) in ws
         rep.add({'ParseInfo_field': fld, 'from': kw.get(fld), 'want': ws[0], 'ok': ok})
         if not ok:
             rep.fail(mp.qualname, f'field:{fld}', f'ParseInfo.{fld} is built from `{kw.get(fld)}`, required `{ws[0]}` (the position at rule exit)', mp.loc)
-    if kw.get('endline', '').replace('self.cursor.lineat(', '').rstrip(')') != kw.get('endpos'):
+    if kw.get('endline', '').replace(f'{LINEAT}(', '').rstrip(')') != kw.get('endpos'):
         rep.fail(mp.qualname, 'field:endline-endpos', f'ParseInfo.endline `{kw.get("endline")}` is not the line of ParseInfo.endpos '
                  f'`{kw.get("endpos")}`', mp.loc)
     # semantics_call receives pos=key.pos from rule_call
